@@ -85,6 +85,12 @@ def run_arb_case(case, judged):
                 pass
         arb.add(ib)
         intrs.append(ib)
+        if rng.random() < 0.08:
+            from amaranth.hdl import Fragment
+            Fragment.get(arb, None)        # bring-up elaboration with only some of the initiators attached
+    from vmon.simkit import decoy_after
+    decoy_after(rng, lambda: wishbone.Arbiter(addr_width=aw + 1, data_width=dw, granularity=gran,
+                                              features=set(ALL_FEATURES) - afeat))
     bus = arb.bus
     idx_bits = max(1, (n - 1).bit_length())
     mon = Mon()
